@@ -36,6 +36,10 @@ CLAIMED = {
             'exploration: held on ~5x10^4 points per quick run over hundreds of geometries (any azimuth/dip side, 1-4 segments, overturned dips, arcs, min depth > 0, truncations); tolerance 1e-3 m',
             'ambiguous reference points (junction wedges, ties, beyond the centre of curvature, trench ends) are skipped and counted; spherical worlds are judged against the statement and the known non-orthonormal frame is recognised by its exact signature',
             'DESIGN.md section 4, C06'),
+    'C05': ('runtime monitoring: reference-model monitor (closed forms written from the parameter documentation, evaluated next to the real code on single-model worlds) plus metamorphic sentinel-equivalence families, on the ASan+UBSan build',
+            'exploration: held on ~3x10^4 interior points per quick run covering every listed model x feature type pair (listed in the evidence), both coordinate systems, sentinels and model ranges narrower/wider than the feature; 1e-12 relative (1e-9 for series and distance-encoded values)',
+            'reference formulas are the checker\'s reading of the documentation (half-space/plate series, Chapman, Gaussian with r^2 = ellipse fraction, tanh profile of the smooth models); slab/fault linear sentinels and grains of unlisted compositions in line features are not judged',
+            'DESIGN.md section 4, C05'),
 }
 
 PENDING_REASON = 'check not built yet (work in progress; see DESIGN.md section 9)'
